@@ -60,6 +60,12 @@ Theorem C18_run_total : forall es s, NoDup (map t_id (m_txs s)) -> Forall event_
   exists s', grun s es = Some s' /\ map t_id (m_txs s') = map t_id (m_txs s).
 Proof. exact grun_total. Qed.
 
+(** The inner loop of [record_satisfiability] (the durable dependency closure) also ends within
+    its fuel: afterwards no unmarked, unmined row has a dead direct dependency left to inherit from. *)
+Theorem C18_record_closure_fixpoint : forall s tg dets, NoDup (map t_id (m_txs s)) ->
+  inherited (m_txs (record_satisfiability s tg dets)) (tg_scanned tg) = [].
+Proof. exact record_sat_closed. Qed.
+
 (** The plain [u32] addition left in the overdue test cannot overflow: it is only evaluated on
     members of a Prove step, whose anchor boundaries are at least [PROVABLE_ANCHOR_DEPTH+1] below
     [u32::MAX]. *)
